@@ -383,7 +383,7 @@ def gen_regexes(mods):
             term, why = ".bad", "unmodelled re.%s" % e["kind"]
         out.append("/-- %s  `%s`%s -/" % (e["where"], (e["pattern"] or "?").replace("-/", "- /"), (" UNSUPPORTED: " + why) if why else ""))
         out.append("def %s : Re :=\n  %s" % (e["name"], term))
-        if groups:
+        if groups or (e["pattern"] and "(?P<" in e["pattern"]):
             out.append("def %s_groups : List (String × Nat) := [%s]" % (e["name"], ", ".join('("%s", %d)' % kv for kv in sorted(groups.items(), key=lambda kv: kv[1]))))
         out.append("")
         names.append(e["name"])
